@@ -44,7 +44,6 @@ func (c *valConfig) payload(rt *rapid.T, label string) []byte {
 var varyRunes = []rune{'a', 'b', 'z', 'Q', '7', ' ', '‹', '›', '×', '?', '%', '"', '\\', 'é', '世', '😀', '\t', '-', '0'}
 var vary1 = []rune{'a', 'b', 'z', 'Q', '7', ' ', '?', '%', '"', '\\', '\t', '-', '0'}
 var vary2 = []rune{'é', '×', 'ü', 'ß'}
-var vary3 = []rune{'‹', '›', '世', '界', '€'}
 var vary4 = []rune{'😀', '😁', '𝄞'}
 
 // vary derives instantiation B from A: line feeds stay in place; every
@@ -87,7 +86,14 @@ func vary(rt *rapid.T, label string, s []byte, sameLen, eqBytes bool) []byte {
 				case 2:
 					r = vary2[rapid.IntRange(0, len(vary2)-1).Draw(rt, label+"_v2")]
 				case 3:
-					r = vary3[rapid.IntRange(0, len(vary3)-1).Draw(rt, label+"_v3")]
+					// a marker stays a marker: in a StringBuilder's buffer it is
+					// stored escaped (one byte), so it is not interchangeable
+					// with other 3-byte runes where byte counts are shape
+					if markerAt(s, i) != 0 {
+						r = []rune{'‹', '›'}[rapid.IntRange(0, 1).Draw(rt, label+"_v3m")]
+					} else {
+						r = []rune{'世', '界', '€'}[rapid.IntRange(0, 2).Draw(rt, label+"_v3")]
+					}
 				default:
 					r = vary4[rapid.IntRange(0, len(vary4)-1).Draw(rt, label+"_v4")]
 				}
@@ -116,6 +122,14 @@ func (c *valConfig) leafI(rt *rapid.T, kind string, pub bool) *Val {
 	v := &Val{K: kind, I: genInt(rt, "i")}
 	if c.two && !pub && !c.shareInts {
 		v.J = genInt(rt, "j")
+		// same emptiness: with a zero precision the integer 0 renders as
+		// nothing, so zero-ness is part of the shape
+		// (judged modulo 256: the value may be narrowed to an 8-bit kind)
+		if v.I%256 == 0 {
+			v.J = v.I
+		} else if v.J%256 == 0 {
+			v.J = 7
+		}
 		v.HasT = true
 	}
 	return v
@@ -147,6 +161,43 @@ func pick(rt *rapid.T, label string, xs []string) string {
 	return xs[rapid.IntRange(0, len(xs)-1).Draw(rt, label)]
 }
 
+// pointerKinds can print a heap address (directly, or by reflection under a
+// bad verb / as an unexported field).
+var pointerKinds = map[string]bool{"pstr": true, "pint": true, "chan": true, "func": true, "uptr": true, "pislice": true, "pmsi": true,
+	"pstructA": true, "pstructB": true, "structC": true, "pstringer": true, "perr": true, "stderr": true, "errwrap": true, "fmter": true,
+	"errfmter": true, "psafefmt": true, "errsafefmt": true, "psb": true, "pstringer!": true, "perr!": true, "rv": true}
+
+// pickK picks a kind, avoiding pointer kinds if the configuration says so.
+func (c *valConfig) pickK(rt *rapid.T, label string, xs []string) string {
+	if c.noPointers {
+		var ys []string
+		for _, x := range xs {
+			if !pointerKinds[x] {
+				ys = append(ys, x)
+			}
+		}
+		xs = ys
+	}
+	return pick(rt, label, xs)
+}
+
+// public returns the configuration for a public context (inside Safe()):
+// what is printed there is outside envelopes, so nothing may print an
+// address (the two instantiations are distinct objects).
+// aligned returns the configuration for operands of a nested format
+// (which may carry a width): rune-for-rune substitution only.
+func (c *valConfig) aligned() *valConfig {
+	cc := *c
+	cc.sameLen = true
+	return &cc
+}
+
+func (c *valConfig) public() *valConfig {
+	cc := *c
+	cc.noPointers = true
+	return &cc
+}
+
 // genVal draws a value spec. pub: the context makes everything public
 // (inside Safe()); depth counts container nesting.
 func (c *valConfig) genVal(rt *rapid.T, depth int, pub bool) *Val {
@@ -166,7 +217,7 @@ func (c *valConfig) genVal(rt *rapid.T, depth int, pub bool) *Val {
 	if !c.noPanic {
 		cats = append(cats, cat{"panic", 2})
 	}
-	if !c.noPrograms {
+	if !c.noPrograms && !c.noPointers {
 		cats = append(cats, cat{"fmter", 2})
 	}
 	if !c.fmtCompat {
@@ -186,7 +237,7 @@ func (c *valConfig) genVal(rt *rapid.T, depth int, pub bool) *Val {
 	}
 	if depth < maxD {
 		cats = append(cats, cat{"container", 5})
-		if !c.noReflect {
+		if !c.noReflect && !c.noPointers {
 			cats = append(cats, cat{"rv", 1})
 		}
 	}
@@ -234,8 +285,8 @@ func (c *valConfig) genVal(rt *rapid.T, depth int, pub bool) *Val {
 		if rapid.IntRange(0, 4).Draw(rt, "mi") == 0 {
 			return c.leafI(rt, pick(rt, "k", methodIntKinds), pub)
 		}
-		k := pick(rt, "k", methodStrKinds)
-		if k == "stderr" && rapid.IntRange(0, 2).Draw(rt, "wrap") == 0 {
+		k := c.pickK(rt, "k", methodStrKinds)
+		if k == "stderr" && !c.noPointers && rapid.IntRange(0, 2).Draw(rt, "wrap") == 0 {
 			inner := c.leafS(rt, "stderr", pub, false)
 			v := c.leafS(rt, "errwrap", pub, false)
 			v.Sub = []*Val{inner}
@@ -243,7 +294,7 @@ func (c *valConfig) genVal(rt *rapid.T, depth int, pub bool) *Val {
 		}
 		return c.leafS(rt, k, pub, false)
 	case "panic":
-		k := pick(rt, "k", panicKinds)
+		k := c.pickK(rt, "k", panicKinds)
 		v := c.leafS(rt, k, pub, false)
 		v.Sub = []*Val{c.genPanicPayload(rt, depth, pub)}
 		return v
@@ -305,13 +356,13 @@ func (c *valConfig) genVal(rt *rapid.T, depth int, pub bool) *Val {
 		}
 		return c.leafS(rt, k, true, false)
 	case "safefmt":
-		k := pick(rt, "k", []string{"safefmt", "safefmt", "psafefmt", "errsafefmt"})
+		k := c.pickK(rt, "k", []string{"safefmt", "safefmt", "psafefmt", "errsafefmt"})
 		v := c.leafS(rt, k, pub, false)
 		v.Ops = c.genSafeFormatScript(rt, depth, pub)
 		return v
 	case "wrap":
 		if rapid.Bool().Draw(rt, "safe") {
-			return &Val{K: "safe", Sub: []*Val{c.genVal(rt, depth+1, true)}}
+			return &Val{K: "safe", Sub: []*Val{c.public().genVal(rt, depth+1, true)}}
 		}
 		return &Val{K: "unsafe", Sub: []*Val{c.genVal(rt, depth+1, pub)}}
 	case "redactable":
@@ -320,9 +371,12 @@ func (c *valConfig) genVal(rt *rapid.T, depth int, pub bool) *Val {
 			return &Val{K: pick(rt, "k", []string{"rs", "rs", "rb"}), Pr: c.genPrintSpec(rt, depth+1, pub)}
 		default:
 			oc := &opConfig{bytesAlpha: c.bytesAlpha, ioSide: true, prints: false, maxTok: 3}
-			v := &Val{K: pick(rt, "k", []string{"sb", "psb"}), Ops: genHistory(rt, oc, 5)}
+			v := &Val{K: c.pickK(rt, "k", []string{"sb", "psb"}), Ops: genHistory(rt, oc, 5)}
 			if c.two && !pub {
-				c.varyOps(rt, v.Ops)
+				// printed by reflection (bad verb) a StringBuilder shows its
+				// buffer like a []byte: one envelope per byte, so the byte
+				// length is shape
+				c.varyOpsEq(rt, v.Ops, true)
 			}
 			return v
 		}
@@ -340,6 +394,9 @@ func (c *valConfig) genVal(rt *rapid.T, depth int, pub bool) *Val {
 func (c *valConfig) genPanicPayload(rt *rapid.T, depth int, pub bool) *Val {
 	switch rapid.IntRange(0, 5).Draw(rt, "pp") {
 	case 0:
+		if c.noPointers {
+			return c.leafS(rt, "serr", pub, false)
+		}
 		return c.leafS(rt, "stderr", pub, false)
 	case 1:
 		if !c.fmtCompat {
@@ -359,11 +416,16 @@ func (c *valConfig) genPanicPayload(rt *rapid.T, depth int, pub bool) *Val {
 }
 
 // varyOps draws the second instantiation for the unsafe payloads of a writer script.
-func (c *valConfig) varyOps(rt *rapid.T, ops []*Op) {
+func (c *valConfig) varyOps(rt *rapid.T, ops []*Op) { c.varyOpsEq(rt, ops, false) }
+
+func (c *valConfig) varyOpsEq(rt *rapid.T, ops []*Op, eqBytes bool) {
 	for _, op := range ops {
+		if eqBytes && op.K != "UnsafeString" && op.K != "UnsafeBytes" && op.K != "Write" && op.K != "WriteString" {
+			continue
+		}
 		switch op.K {
 		case "UnsafeString", "UnsafeBytes", "Write", "WriteString":
-			op.T = vary(rt, "ot", op.S, c.sameLen, false)
+			op.T = vary(rt, "ot", op.S, c.sameLen, eqBytes)
 			op.HasT = true
 		case "UnsafeRune", "WriteRune":
 			if op.I != '\n' {
@@ -382,7 +444,7 @@ func (c *valConfig) varyOps(rt *rapid.T, ops []*Op) {
 // genSafeFormatScript: ops a SafeFormat method issues on its SafePrinter.
 func (c *valConfig) genSafeFormatScript(rt *rapid.T, depth int, pub bool) []*Op {
 	oc := &opConfig{bytesAlpha: c.bytesAlpha, ioSide: true, prints: true, maxTok: 3,
-		args: func(rt *rapid.T, label string) []*Val { return c.genArgs(rt, depth+1, pub, 2) }}
+		args: func(rt *rapid.T, label string) []*Val { return c.aligned().genArgs(rt, depth+1, pub, 2) }}
 	n := rapid.IntRange(0, 5).Draw(rt, "nsf")
 	ops := make([]*Op, 0, n+1)
 	for i := 0; i < n; i++ {
@@ -417,7 +479,7 @@ func (c *valConfig) genFormatterScript(rt *rapid.T, depth int, pub bool) []*Op {
 		case k <= 4:
 			ops = append(ops, &Op{K: "WriteString", S: c.payload(rt, "fws")})
 		case k == 5:
-			args := c.genArgs(rt, depth+1, pub, 2)
+			args := c.aligned().genArgs(rt, depth+1, pub, 2)
 			ops = append(ops, &Op{K: "Fprintf", S: genSimpleFormat(rt, "ff", len(args), false), Args: args})
 		case k == 6:
 			ops = append(ops, &Op{K: "Fprint", Args: c.genArgs(rt, depth+1, pub, 2)})
@@ -455,10 +517,13 @@ func (c *valConfig) genArgs(rt *rapid.T, depth int, pub bool, max int) []*Val {
 
 // genPrintSpec: a nested print call whose result is a library-produced redactable.
 func (c *valConfig) genPrintSpec(rt *rapid.T, depth int, pub bool) *PrintS {
-	p := &PrintS{Args: c.genArgs(rt, depth, pub, 3)}
+	p := &PrintS{}
 	if rapid.Bool().Draw(rt, "pf") {
+		p.Args = c.aligned().genArgs(rt, depth, pub, 3)
 		p.HasFmt = true
 		p.Fmt = genSimpleFormat(rt, "prf", len(p.Args), c.bytesAlpha)
+	} else {
+		p.Args = c.genArgs(rt, depth, pub, 3)
 	}
 	return p
 }
@@ -467,9 +532,9 @@ var containerKinds = []string{"islice", "islice", "pislice", "iarr2", "sslice", 
 	"msi", "msi", "pmsi", "msint", "mis", "mii", "structA", "structA", "pstructA", "structB", "pstructB", "structC"}
 
 func (c *valConfig) genContainer(rt *rapid.T, depth int, pub bool) *Val {
-	k := pick(rt, "ck", containerKinds)
-	if c.noPointers && (k == "pislice" || k == "pmsi" || k == "pstructA" || k == "pstructB" || k == "structC") {
-		k = "islice"
+	k := c.pickK(rt, "ck", containerKinds)
+	if c.fmtCompat && (k == "structB" || k == "pstructB") {
+		k = "structA" // StructB has RedactableString fields (redact-specific rendering)
 	}
 	v := &Val{K: k}
 	n := rapid.IntRange(0, 3).Draw(rt, "cn")
@@ -497,12 +562,12 @@ func (c *valConfig) genContainer(rt *rapid.T, depth int, pub bool) *Val {
 			if rapid.IntRange(0, 4).Draw(rt, "en") == 0 {
 				v.Sub = append(v.Sub, &Val{K: "nil"})
 			} else {
-				v.Sub = append(v.Sub, c.leafS(rt, pick(rt, "ek", []string{"err", "perr", "stderr", "serr", "errstringer"}), pub, false))
+				v.Sub = append(v.Sub, c.leafS(rt, c.pickK(rt, "ek", []string{"err", "perr", "stderr", "serr", "errstringer"}), pub, false))
 			}
 		}
 	case "strgslice":
 		for i := 0; i < n; i++ {
-			v.Sub = append(v.Sub, c.leafS(rt, pick(rt, "sk", []string{"stringer", "pstringer", "sstringer", "errstringer"}), pub, false))
+			v.Sub = append(v.Sub, c.leafS(rt, c.pickK(rt, "sk", []string{"stringer", "pstringer", "sstringer", "errstringer"}), pub, false))
 		}
 	case "msi", "pmsi":
 		c.genStrKeys(rt, v, n, pub)
@@ -544,7 +609,7 @@ func (c *valConfig) genContainer(rt *rapid.T, depth int, pub bool) *Val {
 	case "structB", "pstructB":
 		e := &Val{K: "nil"}
 		if rapid.Bool().Draw(rt, "se") {
-			e = c.leafS(rt, pick(rt, "ek", []string{"err", "perr", "stderr", "serr"}), pub, false)
+			e = c.leafS(rt, c.pickK(rt, "ek", []string{"err", "perr", "stderr", "serr"}), pub, false)
 		}
 		v.Sub = []*Val{e, c.leafS(rt, "bytes", pub, true)}
 		if !c.fmtCompat && !c.noRedactable {
@@ -588,12 +653,21 @@ func (c *valConfig) genIntKeys(rt *rapid.T, v *Val, n int, pub bool) {
 	}
 	a, b := base, base2
 	for i := 0; i < n; i++ {
-		k := &Val{K: "int", I: a}
+		// no zero keys (zero-ness is shape under a zero precision); steps are
+		// >= 2 so that the bump keeps the keys distinct and ordered
+		ka, kb := a, b
+		if ka == 0 {
+			ka = 1
+		}
+		if kb == 0 {
+			kb = 1
+		}
+		k := &Val{K: "int", I: ka}
 		if c.two && !pub && !c.shareInts {
-			k.J, k.HasT = b, true
+			k.J, k.HasT = kb, true
 		}
 		v.Keys = append(v.Keys, k)
-		a += int64(rapid.IntRange(1, 40).Draw(rt, "kstep"))
-		b += int64(rapid.IntRange(1, 40).Draw(rt, "kstep2"))
+		a += int64(rapid.IntRange(2, 40).Draw(rt, "kstep"))
+		b += int64(rapid.IntRange(2, 40).Draw(rt, "kstep2"))
 	}
 }
